@@ -22,9 +22,9 @@ import (
 func init() {
 	core.Register(&core.Prop{
 		ID: "C16", Level: "exploration",
-		Rule: "cases are histories of 5-120 store operations (set/incr sender and target, save, save-and-increment, get, iterate with aborting callback, refresh, reset, close-and-reopen) over 1-3 sessions sharing one directory/database, per store kind (memory, file, file without sync, sqlite); ascending save numbers per epoch, arbitrary message bytes (SOH, NUL, newlines, non-UTF-8, up to 64 KB), empty/inverted/far-beyond ranges; non-trivial = history with a reopen or refresh after >=3 saves and a reset; distinct by the operation-kind sequence",
+		Rule:        "cases are histories of 5-120 store operations (set/incr sender and target, save, save-and-increment, get, iterate with aborting callback, refresh, reset, close-and-reopen) over 1-3 sessions sharing one directory/database, per store kind (memory, file, file without sync, sqlite); ascending save numbers per epoch, arbitrary message bytes (SOH, NUL, newlines, non-UTF-8, up to 64 KB), empty/inverted/far-beyond ranges; non-trivial = history with a reopen or refresh after >=3 saves and a reset; distinct by the operation-kind sequence",
 		Assumptions: []string{"creation times are compared as instants (time.Equal)", "the Mongo store needs a server and is not covered"},
-		FloorQuick: 200, FloorThorough: 2000,
+		FloorQuick:  200, FloorThorough: 2000,
 		Parts: []core.Part{{Name: "stores", Run: run, Replay: replay}},
 	})
 }
